@@ -12,7 +12,7 @@ A static analysis flagged the following SUSPECTED GENUINE DEFECT in the unchange
 YOUR TASK
 1. Read the code and decide whether the defect is real (can a concrete input / sequence of contract calls / history make the real code misbehave as described?). Be honest: if it is not real, say so and explain why.
 2. If real: write a DEMONSTRATION — a new Go test file named zz_defect_{name.lower()}_test.go in a package that compiles in this sandbox — which drives the REAL, UNCHANGED code with a concrete failing input/sequence and asserts the CORRECT behaviour, so that it FAILS on the unchanged tree (showing the defect). Keep it self-contained (build any needed native service / cache DB / parameters in the test; look at existing *_test.go files in the same package for how they construct a NativeService with an in-memory store).
-3. Then write the MINIMAL FIX a maintainer would accept (correct the behaviour; do not remove functionality, do not special-case the failing input, do not touch tests), apply it in the worktree, and show that your demonstration now PASSES and that the pre-existing tests of every package you touched give the same results as before (`git stash` to compare; many tests in this repo already fail on the unchanged tree — only differences matter).
+3. Then write the MINIMAL FIX a maintainer would accept (correct the behaviour; do not remove functionality, do not special-case the failing input, do not touch tests), apply it in the worktree, and show that your demonstration now PASSES and that the pre-existing tests of every package you touched give the same results as before (to compare, save your change with `git diff > /tmp/<name>.patch`, revert with `git apply -R /tmp/<name>.patch`, re-apply with `git apply`; NEVER use `git stash` — the stash is shared between worktrees; many tests in this repo already fail on the unchanged tree — only differences matter).
 4. Leave in {wt}: the fix applied (uncommitted), the demo test file, and {wt}/DEFECT.md containing: verdict (real / not real), the concrete failing input or call sequence in words, the exact commands you ran with their outcomes (demo before fix = FAIL, after fix = PASS, existing tests unchanged), and the fix as a unified diff.
 
 Environment: no network. Always: `export GOFLAGS=-mod=mod GOPROXY=off GOSUMDB=off GOTOOLCHAIN=local`. Go 1.23. Packages `native/service`, `native/service/cross_chain_manager`, `native/service/header_sync` (the three entrance packages themselves) and the `harmony` sub-packages cannot be compiled here (missing cgo header bls.h); their sub-packages (e.g. native/service/governance/*, native/service/header_sync/<chain>, native/service/cross_chain_manager/<chain>) can. Do not modify go.mod or existing _test.go files.
